@@ -644,7 +644,7 @@ def run(ctx):
         "a case that exceeds its CPU limit is re-run alone twice with 10 s / 20 s of CPU (sources: 15 / 30 min) before it counts as not returning; range(2^62) stands for values whose complete iteration is infeasible",
         "host values of the pool honour the Value/Iterable contracts (a host value that lies about Len is a host bug, not covered)",
         "arbitrary byte strings that are not derived from the grammar model or a declared shape are not explored (fuzzing is a different technique)"]
-    return ctx.finish(rule="TLC enumerates (1b) every operator form (index, slices, binary/unary/augmented operators, attribute and assignment forms) x operand tuples: x[i:j:k] over receivers x 20^3 index codes incl. len-relative ones, all ordered pairs for binary operators; (1) target x argument forms: arity 0-2 exhaustive over the pool (quick: arity 2 over the 10-value sub-pool), thorough also arity 3 by a "
+    return ctx.finish(rule="TLC enumerates (1b) every operator form (index, slices, binary/unary/augmented operators, attribute and assignment forms) x operand tuples: x[i:j:k] over receivers x 20^3 index codes incl. len-relative ones, all ordered pairs for binary operators; (1) target x argument forms: arity 0-2 exhaustive over the pool (quick: arity 2 over the 11-value sub-pool), thorough also arity 3 by a "
                            "pairwise-covering array over 23 values; keyword forms; (2) all constructions of value graphs with <= 3 nodes and <= 1 (quick) / 3 later edges x every "
                            "node x 17 operations; (3) all leftmost derivations of the compact grammar within the budget, single-token mutations of a seeded "
                            "subset, every stress shape at depths 2^k and at the 64 KiB limit, deep run-time data. distinct_nontrivial = cases that reach the code "
